@@ -13,7 +13,7 @@ if [ -z "${NO_BASELINE:-}" ]; then
 fi
 for c in "$@"; do
   o=$("$ROOT/bin/vcheck" "$c" --tier "${TIER:-quick}" 2>&1); rc=$?
-  sigs=$(echo "$o" | grep -a "signature:" | sed 's/^ *signature: //' | head -4 | tr '\n' '|')
+  sigs=$(echo "$o" | grep -a "signature:" | sed 's/^ *signature: //' | head -${MAXSIGS:-4} | tr '\n' '|')
   case $rc in
     1) echo "$c DETECTED  $sigs";;
     0) echo "$c MISSED";;
